@@ -94,6 +94,16 @@ func c08Gen(rng *verifsim.RNG, idx int, tier string) *Plan {
 	if stop > 2*nsSec {
 		maybeReinit(rng, p, "eth0", stop/4, stop-200*nsMs, 0.2)
 	}
+	if rng.Bool(0.2) {
+		// the signal task is held up in its supervisor notification (a slow
+		// notify socket): whatever it does in which order, the advertisers must
+		// learn terminate-vs-reload before they can act on the cancellation
+		p.Class += "+slow-notify"
+		p.Faults = append(p.Faults, Fault{Seam: "notify", From: stop, Hold: "hn"})
+		if rng.Bool(0.7) {
+			p.Actions = append(p.Actions, Action{At: stop + int64(rng.Dur(time.Millisecond, 1500*time.Millisecond)), Kind: "release", Hold: "hn"})
+		}
+	}
 	p.Actions = append(p.Actions, Action{At: stop, Kind: "signal", Sig: sig})
 	if rng.Bool(0.1) {
 		// a second signal while shutting down
@@ -158,13 +168,30 @@ func c08Oracle(info *runInfo, res *verifsim.Result) {
 	if stopSeq == 0 {
 		return
 	}
+	// If the signal task was parked on its way to cancelling everybody (slow
+	// supervisor socket), the advertisers are only asked to stop when it is let go.
+	parked := ""
+	for i := range h.ev {
+		e := &h.ev[i]
+		if e.Seq > stopSeq && e.K == "notify" && strings.Contains(e.F, "hold=") && strings.Contains(e.S, "STOPPING") {
+			parked = strings.TrimPrefix(e.F[strings.Index(e.F, "hold="):], "hold=")
+			if j := strings.IndexByte(parked, ','); j >= 0 {
+				parked = parked[:j]
+			}
+		}
+		if parked != "" && e.Seq > stopSeq && ((e.K == "act.release" && e.S == parked) || e.K == "act.endrun") {
+			stopT, stopSeq = e.T, e.Seq
+			res.Probe("signal_task_parked_in_notify")
+			break
+		}
+	}
 	term := sig != "SIGHUP"
 	// If some task had already failed before the signal, the server was being
 	// torn down because of that failure (every task cancelled, no signal recorded):
 	// not an advertiser being asked to stop by a signal.
 	for i := range h.ev {
 		e := &h.ev[i]
-		if e.K == "task.exit" && e.Err != "" && e.Seq < stopSeq {
+		if e.K == "task.exit" && e.Err != "" && (e.Seq < stopSeq || e.T <= stopT) {
 			res.Probe("server_failing_before_stop")
 			return
 		}
@@ -217,7 +244,8 @@ func c08Iface(info *runInfo, res *verifsim.Result, h *history, ifn string, unica
 	// C10's business, not an advertiser being asked to stop.
 	for i := range h.ev {
 		e := &h.ev[i]
-		if e.Seq < stopSeq && e.If == ifn && e.Err != "" && e.Err != "deadline" && (e.K == "write.exit" || e.K == "fwd.exit" || e.K == "read.exit") && (e.Gen == live.gen || e.K == "fwd.exit") {
+		// (a failure in the very instant of the stop races it: either may win)
+		if (e.Seq < stopSeq || e.T <= stopT) && e.If == ifn && e.Err != "" && e.Err != "deadline" && (e.K == "write.exit" || e.K == "fwd.exit" || e.K == "read.exit") && (e.Gen == live.gen || e.K == "fwd.exit") {
 			res.Probe("failed_before_stop")
 			return
 		}
